@@ -120,6 +120,17 @@ def check_state(fs, model, step, op):
         if flag is not it["enabled"] or isdis is not (not it["enabled"]) or (wrapped is not None and wrapped is not (not it["enabled"])):
             out.append(("enabled-status-inconsistent|after=%s" % op["op"], {"filter": f["name"], "observed": obs, "text": text}))
             break
+        if cmds is not None and wrapped is not None:
+            # the rendering of the set shows this filter's own, current content
+            shown = cmds[k].children[0] if wrapped else cmds[k]
+            try:
+                stext = " ".join(fsmodel.render_command(shown).split())
+            except Exception as e:  # noqa: BLE001
+                stext = "raises " + repr(e)[:100]
+            # white space is not compared: the factory keeps '["a","b"]' verbatim, a re-rendered list has ', '
+            if "".join(stext.split()) != "".join(rendered_def(it["def"]).split()):
+                out.append(("rendering-not-own-content|after=%s" % op["op"], {"filter": f["name"], "rendered": stext, "expected": rendered_def(it["def"]), "text": text}))
+                break
         got = fs.getfilter(f["name"])
         try:
             gtext = " ".join(fsmodel.render_command(got).split()) if got is not None else None
